@@ -111,7 +111,7 @@ def main():
                      'kind_free_text': 'repo-specific static analysis on the Python ast: path summaries, linear length arithmetic, typestate, call-graph scans'}],
         'checks': checks,
         'not_applicable': sorted(na, key=lambda x: x['property_id']),
-        'notes': 'Exit 0 held / 1 VIOLATION / 2 ANALYSIS-ERROR. Known findings: /verif/known_findings.json. fix: commits in /repo: afdf4ac, 5e5f599, dbf5b78.',
+        'notes': 'Exit 0 held / 1 VIOLATION / 2 ANALYSIS-ERROR. Known findings: /verif/known_findings.json. fix: commits in /repo: afdf4ac (D1), 5e5f599 (D5), dbf5b78 (D8), 3d4836f (D20). Seeded changes: /verif/seeded/ (tools/rerun_seeds.py).',
     }
     (ROOT / 'MANIFEST.json').write_text(json.dumps(man, indent=1) + '\n')
     print(f'MANIFEST.json: {len(checks)} checks, {len(na)} not_applicable')
